@@ -8,6 +8,7 @@ import (
 	"io"
 	"os"
 	"strings"
+	"sync"
 
 	"github.com/biogo/hts/bam"
 	"github.com/biogo/hts/bgzf"
@@ -44,14 +45,14 @@ func init() { register(c11{}) }
 func (c11) ID() string { return "C11" }
 func (c11) Runs(tier string) int {
 	if tier == "quick" {
-		return 8000
+		return len(c11AuxEdits()) + len(c11IdxEdits(tier)) + 7000
 	}
 	return 0
 }
 func (c11) New() interface{} { return &c11Case{} }
 func (c11) CrashProne() bool { return true }
 func (c11) Rule() string {
-	return "targets: bgzf, bam, sam (text: reader, record/aux/CIGAR/header parsers), bai, csi, tabix, fai, fasta (NewIndex + File.SeqRange), cram (definition, containers, blocks, Value); a valid encoding (independent encoders for BGZF/BAM/CRAM, the library's own writers for SAM text and the indexes) is stored on a simulated file, hit by 1..4 stored-state faults {bit flip, byte substitution, truncation, zeroed 512-byte sector, misdirected sector, duplicated tail} and consumed as a stream with short reads and optionally a read error, BGZF/BAM with rd>1 under tape-chosen schedules. Oracle: no panic in any goroutine, no deadlock/livelock, no fatal runtime error or 30 s stall of the worker; every value returned without error is passed to the library's accessors, formatters, writers and index builders, which must not panic either. Arbitrary byte strings far from a valid encoding are NOT explored. non-trivial: the decoder read at least one faulted byte and the outcome differs from the fault-free outcome; distinct = (case, schedule signature)"
+	return "targets: bgzf, bam, sam (text: reader, record/aux/CIGAR/header parsers), bai, csi, tabix, fai, fasta (NewIndex + File.SeqRange), cram (definition, containers, blocks, Value); a valid encoding (independent encoders for BGZF/BAM/CRAM, the library's own writers for SAM text and the indexes) is stored on a simulated file, hit by 1..4 stored-state faults {bit flip, byte substitution, truncation, zeroed 512-byte sector, misdirected sector, duplicated tail} and consumed as a stream with short reads and optionally a read error, BGZF/BAM with rd>1 under tape-chosen schedules. Oracle: no panic in any goroutine, no deadlock/livelock, no fatal runtime error or 30 s stall of the worker; every value returned without error is passed to the library's accessors, formatters, writers and index builders, which must not panic either. Two enumerations run before the seeded cases: 960 single structural edits of one BAM record's auxiliary area, and every 4-byte window (quick: every window of the first 200 bytes and the aligned ones up to byte 600; thorough: all) of one BAI, one CSI and one tabix image overwritten with each of 6 boundary values. Arbitrary byte strings far from a valid encoding are NOT explored. non-trivial: the decoder read at least one faulted byte and the outcome differs from the fault-free outcome; distinct = (case, schedule signature)"
 }
 
 // "-inner" targets apply the faults to the payload BEFORE it is wrapped in a
@@ -95,10 +96,55 @@ func c11AuxEdits() [][3]int {
 	return out
 }
 
+// Enumerated index edits: every 4-byte window of a fixed BAI, CSI and tabix
+// image (the seeded int32-edit fault only samples aligned positions) is
+// overwritten with every value of c11IdxVals. The quick tier takes every
+// window of the first 200 bytes (header, first reference) and the aligned
+// ones up to byte 600; the thorough tier takes every window of the image.
+const c11IdxSeed = 3
+
+var c11IdxVals = []uint32{0xffffffff, 0x80000000, 0x7fffffff, 0, 0x00010000, 0x7ffffff0}
+
+type c11IdxEdit struct {
+	target string
+	pos, v int
+}
+
+var (
+	c11IdxMu    sync.Mutex
+	c11IdxCases = map[string][]c11IdxEdit{}
+)
+
+func c11IdxEdits(tier string) []c11IdxEdit {
+	c11IdxMu.Lock()
+	defer c11IdxMu.Unlock()
+	if l, ok := c11IdxCases[tier]; ok {
+		return l
+	}
+	l := []c11IdxEdit{}
+	for _, tg := range []string{"bai", "csi", "tabix"} {
+		n := len(genValid(tg, c11IdxSeed))
+		for p := 0; p+4 <= n; p++ {
+			if tier == "quick" && (p >= 600 || p >= 200 && p%4 != 0) {
+				continue
+			}
+			for v := range c11IdxVals {
+				l = append(l, c11IdxEdit{tg, p, v})
+			}
+		}
+	}
+	c11IdxCases[tier] = l
+	return l
+}
+
 func (c11) Gen(t *Tape, tier string, run int) interface{} {
 	if edits := c11AuxEdits(); run < len(edits) {
 		e := edits[run]
 		return &c11Case{Target: "bam-aux-enum", GenSeed: 1, Faults: []StoreFault{{Kind: "aux-edit", A: e[0]*64 + e[1], B: e[2]}}, RD: 1, Kind: "read+seek"}
+	}
+	if k := run - len(c11AuxEdits()); k >= 0 && k < len(c11IdxEdits(tier)) {
+		e := c11IdxEdits(tier)[k]
+		return &c11Case{Target: e.target, GenSeed: c11IdxSeed, Faults: []StoreFault{{Kind: "int32-at", A: e.pos, B: e.v}}, RD: 1, Kind: "read+seek"}
 	}
 	targets := c11Targets
 	if only := os.Getenv("HTSV_C11_ONLY"); only != "" {
@@ -174,6 +220,10 @@ func applyFaults(img []byte, fs []StoreFault) ([]byte, []bool) {
 			if p+4 <= len(out) {
 				v := []uint32{0xffffffff, 0, 0x7fffffff, 0x80000000, 1}[f.B%5]
 				binary.LittleEndian.PutUint32(out[p:], v)
+			}
+		case "int32-at": // enumerated: any 4-byte window, see c11IdxEdits
+			if a+4 <= len(out) {
+				binary.LittleEndian.PutUint32(out[a:], c11IdxVals[f.B%len(c11IdxVals)])
 			}
 		case "aux-edit":
 			// enumerated structural edit, handled by the bam-aux-enum target
